@@ -7,12 +7,21 @@ import sys, os, json, importlib, signal
 
 def main():
     drv, cin, cout = sys.argv[1:4]
+    start = int(sys.argv[4]) if len(sys.argv) > 4 else 0      # index of the first case to execute (a worker that restarted itself)
     repo = os.environ.get("MINGUS_REPO", "/repo")
     sys.path.insert(0, repo)
     os.environ.setdefault("MINGUS_VERIF", "1")
     import mingus
     assert os.path.realpath(mingus.__file__).startswith(os.path.realpath(repo) + os.sep), \
         "mingus imported from %s, not %s" % (mingus.__file__, repo)
+    # a call that runs away inside the library (a list growing without end) must end as a failed CALL, not as a dead worker:
+    # the address space of a worker is capped, so such a call raises MemoryError, which is recorded like any other error
+    try:
+        import resource
+        cap = int(os.environ.get("VERIF_WORKER_MEM_GB", "4")) * 1024 ** 3
+        resource.setrlimit(resource.RLIMIT_AS, (cap, cap))
+    except Exception:
+        pass
     mod = importlib.import_module("harness.drv." + drv)
     from harness.drv import common
     common.install_alarm()
@@ -23,10 +32,10 @@ def main():
             common.guarded(warmup.run, 60)
         except BaseException:
             pass
-    with open(cin) as f, open(cout, "w") as g:
-        for line in f:
+    with open(cin) as f, open(cout, "a" if start else "w") as g:
+        for index, line in enumerate(f):
             line = line.strip()
-            if not line:
+            if not line or index < start:
                 continue
             case = json.loads(line)
             cid = case["cid"]
@@ -34,10 +43,18 @@ def main():
                 recs = common.guarded(lambda: mod.run_case(case), getattr(mod, "CASE_TIMEOUT", 20))
             except common.Hang:
                 recs = [{"op": "case", "in": {}, "ok": False, "out": 0, "err": "hang"}]
+            except MemoryError:
+                recs = [{"op": "case", "in": {}, "ok": False, "out": 0, "err": "MemoryError"}]
             for r in recs:
                 r["cid"] = cid
                 g.write(json.dumps(r, separators=(",", ":")))
                 g.write("\n")
+            if any(r.get("err") in ("hang", "MemoryError") for r in recs):
+                # a call ran away: what it left behind (a list of gigabytes kept by the library, a timer) must not decide the
+                # following cases - they are executed by a fresh interpreter, from the next case on
+                g.flush()
+                os.fsync(g.fileno())
+                os.execv(sys.executable, [sys.executable, "-m", "harness.worker", drv, cin, cout, str(index + 1)])
 
 if __name__ == "__main__":
     main()
